@@ -7,7 +7,7 @@ CLOUD_SUFFIX = (" In addition every driver call of whole-node runs (seeded scena
                 "check's own node-level plans) is one event validated by TLC against Cloud.tla (Trace_Cloud: the state after the call must be the "
                 "successor the specification prescribes, aspect by aspect; only the rules stating this property are enforced).")
 CLOUD_PROPS = {"C01", "C02", "C05", "C08", "C09", "C10", "C11", "C12", "C13", "C14", "C15"}
-CLOUD_DESIGN = {"C12", "C14", "C15"}
+CLOUD_DESIGN = {"C05", "C12", "C14", "C15"}
 
 CHECKS = {
     "C03": dict(
